@@ -265,6 +265,8 @@ def check_b(ck, repo):
     # permutation
     pc = repo.cls(MOD, "PermutationReciprocalTransformer")
     pinv = pc.methods["get_fct_inv"]
+    from .sem import dict_loop_to_comprehension
+    dict_loop_to_comprehension(pinv)
     ps = [p for p in paths(pinv) if p.ret != RAISE]
     okp = oko = False
     if len(ps) == 1 and isinstance(ps[0].ret, ast.Call) and _t(ps[0].ret.func) == "PermutationReciprocalTransformer":
